@@ -4,3 +4,4 @@ pub mod refs;
 pub mod json;
 pub mod http;
 pub mod net;
+pub mod ws;
